@@ -3,7 +3,7 @@ from common import *
 from props.framelib import *
 
 RULE = ("MC: Stream spec, all toy streams up to length 7 (quick) / 8 (thorough) x all chunkings x all interleavings of Feed and "
-        "ScanStep: ChunkInv, PrefixInv, pending = unconsumed, liveness <>[]Quiescent; NEG variant (skip-incomplete scanner) refuted; TV: streaming sessions on the real next_msg_frame with the caller protocol of the "
+        "ScanStep: ChunkInv, PrefixInv, pending = unconsumed, liveness <>[]Quiescent; NEG variant (skip-incomplete scanner) refuted; GEN->replay: TLC simulates the Stream spec in the REAL profile (streams assembled from frame / corrupted / truncated / stray / long-header / garbage / nested pieces, cut sizes {1,2,3,5,6,7,11,46,rest}, free interleaving of Feed and Scan) and every behaviour is stepped through the real next_msg_frame, each call compared with the spec-computed result; TV: streaming sessions on the real next_msg_frame with the caller protocol of the "
         "property (extend / drain consumed), chunk styles {1 byte, tiny, random, mixed+lazy scanning}; every Feed/Scan/End event "
         "must be a Stream step and End must equal WholeScan(stream); non-trivial = session whose stream holds a 0xD3 and "
         "is cut into >= 2 chunks; distinct = distinct (stream, chunking)")
@@ -19,6 +19,24 @@ def run(chk):
     chk.add_mc(r0)
     chk.add_neg(mc("MC_Stream", "NEG_C06_skip.cfg", expect_fail=True))
     chk.add_mc(mc("MC_Frame", "MC_Frame.cfg", workers=8))
+    # GEN -> replay: behaviours of the Stream spec in the REAL profile (TLC simulation), each stepped through the real
+    # scanner with the caller protocol; every scanner call must return what the spec computed, the final state must match
+    g = gen("Gen_Stream", "Gen_Stream.cfg", chk.path("gen.vec"), simulate=300 if q else 6000, depth=90, seed=chk.seed, timeout=3000)
+    chk.cov["gen_runs"].append({"module": "Gen_Stream", "behaviours": g["behaviours"], "states": g["states"]})
+    res = replay_vectors("stream", chk.path("gen.vec"), chk.path("gen.res"), seed=chk.seed)
+    replayed = 0
+    for ln in open(res):
+        o = json.loads(ln)
+        if o["ev"] == "Mismatch":
+            chk.violation("GEN replay: %s mismatch got%s" % (o["what"], "<" if str(o["got"]) < str(o["expected"]) else ">"),
+                          "a behaviour generated from the Stream specification is not reproduced by the real scanner: step %s expected %s got %s" % (o["step"], o["expected"], o["got"]),
+                          {"behaviour": o["vector"], "step": o["step"], "expected": o["expected"], "got": o["got"]})
+        elif o["ev"] == "ReplaySummary":
+            replayed = o["behaviours"]
+            chk.cov["traces_validated_against_impl"] += o["behaviours"]
+            chk.cov["evaluations"] += o["scans"]
+    if replayed < 50:
+        raise ToolError("GEN replay ran only %d behaviours" % replayed)
     t = record("stream", chk.path("stream.ndjson"), n=240 if q else 3000, seed=chk.seed)
     r = tv("Trace_Stream", "Trace_Stream.cfg", t, reset_events=("StreamInit",), shards=10, tag="C06")
     chk.add_tv("stream", r)
